@@ -121,6 +121,12 @@ func (s *sim) monDelivered(nd *node, m msg) {
 	if m.h < nd.h {
 		s.st.rejectedByAge++
 	}
+	if m.kind == kPrecommit && m.h > nd.h {
+		if nd.futPC == nil {
+			nd.futPC = map[[3]int64]uint32{}
+		}
+		nd.futPC[[3]int64{int64(m.h), int64(m.r), int64(m.val)}] |= 1 << uint(m.from)
+	}
 	s.record(nd, m)
 }
 
@@ -230,7 +236,7 @@ func (s *sim) monRound(nd *node, in msg, r types.Round) {
 	if rl := s.hl(nd, nd.h).rl(r); rl != nil {
 		p = s.c.maskPower(nd.h, rl.anyM)
 	}
-	if in.kind > kPrecommit || in.h != nd.h || in.r != r || r <= nd.round || !s.c.isFPlus1(nd.h, p) {
+	if (in.kind > kPrecommit && in.kind != kSync) || in.h != nd.h || in.r != r || r <= nd.round || !s.c.isFPlus1(nd.h, p) {
 		s.violation("threshold:round-entered-without-f+1-messages-of-that-round",
 			fmt.Sprintf("entered round %d from round %d holding messages of round %d from power %d of %d (needs 3P>=N)", r, nd.round, r, p, s.c.total[s.c.hidx(nd.h)]), nd, in)
 		return
@@ -468,6 +474,8 @@ func (s *sim) monCommit(nd *node, in msg, m msg) {
 			return
 		}
 	}
-	s.decided[m.h], s.decider[m.h], s.decRound[m.h] = m.val, nd.i, m.r
+	if _, already := s.decided[m.h]; !already { // the first decision's round stands (a sync body attributes its own round)
+		s.decided[m.h], s.decider[m.h], s.decRound[m.h], s.decVR[m.h] = m.val, nd.i, m.r, m.vr
+	}
 	s.st.commits++
 }
